@@ -453,3 +453,227 @@ Proof.
   - destruct V2 as [V21 V22]. split; auto. intros Hi. apply (Cnt 0%nat V22) in Hi. congruence.
   - destruct V2 as [V21 V22]. split; auto. intros Hi. apply (Cnt 0%nat V22) in Hi. congruence.
 Qed.
+
+(* ================= a removed peer stops itself and discards its consensus data ================= *)
+(* the data folder as consensus.Shutdown leaves it *)
+Definition shut_folder (snap : option N) (f : folder N) : folder N :=
+  match snap with Some x => (fst f, Some x) | None => f end.
+
+Lemma cleanup_after_shutdown keep snap (d : dir N) f : live d = Some f ->
+  cleanup keep (snap_dir snap d) =
+    match snd (shut_folder snap f) with
+    | Some _ => mk_dir None (rotate keep (shut_folder snap f) (olds d))
+    | None => mk_dir None (olds d)
+    end.
+Proof.
+  intros L. unfold snap_dir, shut_folder. rewrite L. destruct f as [m sn]. destruct snap as [x|]; simpl.
+  - reflexivity.
+  - unfold cleanup. rewrite L. destruct sn; simpl; [unfold make_backup; now rewrite L|reflexivity].
+Qed.
+
+Lemma tick_removed_l s p q snap : aget p (cs_peers s) = Some q -> cp_running q = true -> memN p (sees s q) = false ->
+  let s' := fst (clstep s (EvWatchTick p snap)) in
+  exists q', aget p (cs_peers s') = Some q' /\ cp_running q' = false /\ cp_removed q' = true /\
+    cp_dir q' = (if cp_ready q then cleanup (cp_keep q) (snap_dir snap (cp_dir q)) else snap_dir snap (cp_dir q)) /\
+    cp_cleans q' = (if cp_ready q then S (cp_cleans q) else cp_cleans q) /\
+    cs_lg s' = cs_lg s /\ cs_st s' = cs_st s /\ cs_tr s' = cs_tr s /\
+    (forall p', p' <> p -> aget p' (cs_peers s') = aget p' (cs_peers s)).
+Proof.
+  intros A R M. unfold clstep. simpl. rewrite A, R, M. simpl. rewrite andb_false_r. simpl.
+  eexists. split; [apply aget_aput_same|]. simpl. rewrite mem_trace_same, app_nil_r.
+  destruct (cp_ready q); simpl; repeat split; auto; intros p' Hp; now apply aget_aput_other.
+Qed.
+
+Lemma clstep_init s ev : cs_init (fst (clstep s ev)) = cs_init s.
+Proof. unfold clstep. simpl. now destruct (clstep1_shape s ev) as [_ [_ [_ [_ [_ Ei]]]]]. Qed.
+Lemma clrun_init evs : forall s, cs_init (clrun s evs) = cs_init s.
+Proof. induction evs as [|ev r IH]; intros s; auto. change (clrun s (ev :: r)) with (clrun (fst (clstep s ev)) r).
+  now rewrite IH, clstep_init. Qed.
+
+Lemma deliver_l s p q : aget p (cs_peers s) = Some q -> cp_running q = true ->
+  fst (clstep s (EvDeliver p)) =
+  with_clock (with_peer s p (set_run q true (cp_ready q) (cp_removed q) (length (cs_lg s)) (cp_dir q) (cp_cleans q))).
+Proof. intros A R. unfold clstep. simpl. rewrite A, R. reflexivity. Qed.
+
+(* the whole clause: removal acknowledged, the entry reaches the removed peer, its watcher ticks *)
+Lemma removed_peer_stops_and_cleans_l s caller qc p q o os snap f :
+  aget caller (cs_peers s) = Some qc -> cp_running qc = true ->
+  aget p (cs_peers s) = Some q -> cp_running q = true -> cp_ready q = true -> live (cp_dir q) = Some f ->
+  let r := clstep s (EvPeerRemove caller p o os) in
+  snd r = false ->
+  let s3 := fst (clstep (fst (clstep (fst r) (EvDeliver p))) (EvWatchTick p snap)) in
+  memN p (cfg_peers s3) = false /\
+  exists q', aget p (cs_peers s3) = Some q' /\ cp_running q' = false /\ cp_removed q' = true /\ live (cp_dir q') = None /\
+    cp_cleans q' = S (cp_cleans q) /\
+    olds (cp_dir q') = match snd (shut_folder snap f) with
+                       | Some _ => rotate (cp_keep q) (shut_folder snap f) (olds (cp_dir q))
+                       | None => olds (cp_dir q) end.
+Proof.
+  intros Ac Rc A R Rd L. cbv zeta. intros Ok.
+  destruct (remove_state_l s caller qc p o os Ac Rc) as [_ [E2 [E3 [E4 _]]]]. cbv zeta in *.
+  pose proof (clstep_init s (EvPeerRemove caller p o os)) as I1.
+  remember (fst (clstep s (EvPeerRemove caller p o os))) as s1 eqn:Hs1.
+  assert (Out : memN p (peers_of (cs_init s) (cs_lg s1)) = false).
+  { rewrite E2. destruct (cons_rm_spec (cs_init s) (cs_lg s) p os) as [_ [_ H]]. apply H. now rewrite <- E3. }
+  assert (A1 : aget p (cs_peers s1) = Some q) by (rewrite E4; exact A).
+  pose proof (deliver_l s1 p q A1 R) as S2.
+  remember (set_run q true (cp_ready q) (cp_removed q) (length (cs_lg s1)) (cp_dir q) (cp_cleans q)) as q1 eqn:Hq1.
+  remember (fst (clstep s1 (EvDeliver p))) as s2 eqn:Hs2.
+  assert (A2 : aget p (cs_peers s2) = Some q1) by (rewrite S2; apply aget_aput_same).
+  assert (L2 : cs_lg s2 = cs_lg s1) by (rewrite S2; reflexivity).
+  assert (I2 : cs_init s2 = cs_init s) by (rewrite S2; exact I1).
+  assert (Rv : cp_recv q1 = length (cs_lg s1)) by (rewrite Hq1; reflexivity).
+  assert (M2 : memN p (sees s2 q1) = false).
+  { unfold sees. rewrite L2, I2, Rv, firstn_all. exact Out. }
+  assert (R1 : cp_running q1 = true) by (rewrite Hq1; reflexivity).
+  destruct (tick_removed_l s2 p q1 snap A2 R1 M2) as [q' [B1 [B2 [B3 [B4 [B5 [B6 _]]]]]]]. cbv zeta in *.
+  split.
+  - unfold cfg_peers. rewrite B6, clstep_init, L2, I2. exact Out.
+  - exists q'. assert (Rd1 : cp_ready q1 = true) by (rewrite Hq1; exact Rd). rewrite Rd1 in B4, B5.
+    assert (D1 : cp_dir q1 = cp_dir q) by (rewrite Hq1; reflexivity).
+    assert (K1 : cp_keep q1 = cp_keep q) by (rewrite Hq1; reflexivity).
+    assert (C1 : cp_cleans q1 = cp_cleans q) by (rewrite Hq1; reflexivity).
+    rewrite D1, K1, (cleanup_after_shutdown _ _ _ f L) in B4. rewrite C1 in B5.
+    repeat split; auto; rewrite B4; destruct (snd (shut_folder snap f)); reflexivity.
+Qed.
+
+(* ================= a peer that was never out of the peerset (and does not leave on shutdown) never cleans ================= *)
+Definition was_out (s : cstate) (p : N) : Prop := exists k, memN p (peers_of (cs_init s) (firstn k (cs_lg s))) = false.
+Definition clean_inv (s : cstate) : Prop :=
+  forall p q, aget p (cs_peers s) = Some q -> cp_leave q = false -> cp_removed q = true \/ cp_cleans q <> 0%nat -> was_out s p.
+
+Lemma firstn_app_le {A} k (a b : list A) : (k <= length a)%nat -> firstn k (a ++ b) = firstn k a.
+Proof. intros H. rewrite firstn_app. replace (k - length a)%nat with 0%nat by lia. simpl. apply app_nil_r. Qed.
+
+Lemma was_out_grows init lg suf p : (exists k, memN p (peers_of init (firstn k lg)) = false) ->
+  exists k, memN p (peers_of init (firstn k (lg ++ suf))) = false.
+Proof.
+  intros [k H]. destruct (Nat.le_gt_cases k (length lg)) as [Hk|Hk].
+  - exists k. now rewrite firstn_app_le.
+  - exists (length lg). rewrite firstn_app_le by lia. rewrite firstn_all. rewrite firstn_all2 in H by lia. exact H.
+Qed.
+
+(* a step that extends the log and replaces at most one peer's record keeps the invariant, provided the new record is justified *)
+Lemma clean_inv_step s lg' st' tr' ck' peers' :
+  clean_inv s -> (exists suf, lg' = cs_lg s ++ suf) ->
+  (forall p q', aget p peers' = Some q' -> cp_leave q' = false -> cp_removed q' = true \/ cp_cleans q' <> 0%nat ->
+     (exists q, aget p (cs_peers s) = Some q /\ cp_leave q = false /\ (cp_removed q = true \/ cp_cleans q <> 0%nat)) \/
+     (exists k, memN p (peers_of (cs_init s) (firstn k lg')) = false)) ->
+  clean_inv (mk_cstate (cs_init s) lg' st' tr' ck' peers').
+Proof.
+  intros I [suf ->] H p q' A Lv Fl. unfold was_out. simpl. destruct (H p q' A Lv Fl) as [[q [A0 [L0 F0]]]|W]; auto.
+  apply was_out_grows. exact (I p q A0 L0 F0).
+Qed.
+
+Lemma aput_cases {V} p p' (q' : V) m x : aget p' (aput p q' m) = Some x -> (p' = p /\ x = q') \/ (p' <> p /\ aget p' m = Some x).
+Proof.
+  destruct (N.eq_dec p' p) as [->|Hn].
+  - rewrite aget_aput_same. intros E. inversion E. auto.
+  - rewrite aget_aput_other by auto. auto.
+Qed.
+
+Lemma do_shutdown_clean_inv s k p q os snap : clean_inv s -> aget p (cs_peers s) = Some q ->
+  clean_inv (do_shutdown s k p q os snap).
+Proof.
+  intros I A. unfold do_shutdown. apply clean_inv_step; auto.
+  - destruct (cp_leave q && cp_ready q && negb (cp_removed q)); [|exists []; now rewrite app_nil_r].
+    destruct (cons_rm_grows (cs_init s) (cs_lg s) p os) as [suf [E _]]. eauto.
+  - intros p' q' A' Lv Fl. apply aput_cases in A'. destruct A' as [[-> ->]|[Hn A']]; [|left; eauto].
+    left. exists q. simpl in Lv, Fl. rewrite Lv in Fl. simpl in Fl. rewrite orb_false_r in Fl. split; auto. split; auto.
+    destruct Fl as [Fl|Fl]; auto. destruct (cp_removed q) eqn:Rm; simpl in Fl; auto.
+Qed.
+
+Lemma clstep_clean_inv s ev : clean_inv s -> clean_inv (fst (clstep s ev)).
+Proof.
+  intros I. assert (W : forall t, clean_inv t -> clean_inv (with_clock t)) by (intros t H; exact H).
+  unfold clstep. simpl. apply W.
+  destruct ev as [caller target o os|caller target os id_ok|p via marker os|p|p snap|p os snap|p rdy|caller e ord c log_ok]; simpl.
+  - destruct (aget caller (cs_peers s)) as [q|]; auto. destruct (cp_running q); auto. simpl. apply clean_inv_step; auto.
+    + destruct (cons_rm_grows (cs_init s) (cs_lg s) target os) as [suf [E _]]. eauto.
+    + intros p q' A Lv Fl. left. eauto.
+  - destruct (is_running s caller); auto. simpl. apply clean_inv_step; auto.
+    + destruct (cons_add_grows (cs_init s) (cs_lg s) target os) as [suf [E _]]. eauto.
+    + intros p q' A Lv Fl. left. eauto.
+  - destruct (aget p (cs_peers s)) as [q|] eqn:A; auto. destruct (cp_running q); auto.
+    assert (J : forall lg' st' tr' ck' q', (exists suf, lg' = cs_lg s ++ suf) -> cp_leave q' = cp_leave q -> cp_removed q' = false ->
+                cp_cleans q' = cp_cleans q -> clean_inv (mk_cstate (cs_init s) lg' st' tr' ck' (aput p q' (cs_peers s)))).
+    { intros lg' st' tr' ck' q' G E1 E2 E3. apply clean_inv_step; auto. intros p' x A' Lv Fl. apply aput_cases in A'.
+      destruct A' as [[-> ->]|[Hn A']]; [|left; eauto]. left. exists q. rewrite E1 in Lv. rewrite E2, E3 in Fl.
+      split; auto. split; auto. destruct Fl as [Fl|Fl]; [discriminate|auto]. }
+    destruct (p =? via); [apply J; auto; exists []; now rewrite app_nil_r|].
+    destruct (is_running s via); [|apply J; auto; exists []; now rewrite app_nil_r]. simpl.
+    apply J; try (destruct (snd (cons_add (cs_init s) (cs_lg s) p os)); reflexivity).
+    destruct (cons_add_grows (cs_init s) (cs_lg s) p os) as [suf [E _]]. eauto.
+  - destruct (aget p (cs_peers s)) as [q|] eqn:A; auto. destruct (cp_running q); auto. simpl.
+    apply (clean_inv_step s (cs_lg s)); auto; [exists []; now rewrite app_nil_r|].
+    intros p' x A' Lv Fl. apply aput_cases in A'. destruct A' as [[-> ->]|[Hn A']]; left; eauto.
+  - destruct (aget p (cs_peers s)) as [q|] eqn:A; auto. destruct (cp_running q && negb (memN p (sees s q))) eqn:T; auto. simpl.
+    apply andb_prop in T. destruct T as [_ T]. apply negb_true_iff in T.
+    (* the watcher's own evidence: the configuration this peer has received lacks it *)
+    set (qr := set_run q true (cp_ready q) true (cp_recv q) (cp_dir q) (cp_cleans q)).
+    unfold do_shutdown. apply clean_inv_step; auto.
+    + simpl. rewrite andb_false_r. exists []. now rewrite app_nil_r.
+    + intros p' x A' Lv Fl. apply aput_cases in A'. destruct A' as [[-> ->]|[Hn A']]; [|left; eauto].
+      right. simpl. rewrite andb_false_r. exists (cp_recv q). exact T.
+  - destruct (aget p (cs_peers s)) as [q|] eqn:A; auto. destruct (cp_running q); auto. simpl. now apply do_shutdown_clean_inv.
+  - destruct (aget p (cs_peers s)) as [q|] eqn:A; auto. destruct (live (cp_dir q)); auto. destruct (cp_running q); auto. simpl.
+    apply (clean_inv_step s (cs_lg s)); auto; [exists []; now rewrite app_nil_r|].
+    intros p' x A' Lv Fl. apply aput_cases in A'. destruct A' as [[-> ->]|[Hn A']]; [|left; eauto]. left. exists q. simpl in *.
+    split; auto. split; auto. destruct Fl as [Fl|Fl]; [discriminate|auto].
+  - destruct (aget caller (cs_peers s)) as [q|]; auto. destruct (cp_running q && log_ok); auto.
+Qed.
+
+Lemma clrun_clean_inv evs : forall s, clean_inv s -> clean_inv (clrun s evs).
+Proof. induction evs as [|ev r IH]; simpl; intros s H; auto. apply IH. now apply clstep_clean_inv. Qed.
+
+Lemma in_aget_some {V} p (q : V) m : aget p m = Some q -> In (p, q) m.
+Proof. induction m as [|[k v] r IH]; simpl; [discriminate|]. destruct (p =? k) eqn:E; [apply N.eqb_eq in E; intros H; inversion H; subst; now left|auto]. Qed.
+
+Lemma clinit_clean_inv s : clinit_ok s = true -> clean_inv s.
+Proof.
+  unfold clinit_ok. intros H. apply andb_prop in H. destruct H as [_ H]. rewrite forallb_forall in H.
+  intros p q A _ Fl. specialize (H (p, q) (in_aget_some p q _ A)). simpl in H. unfold fresh_peer in H.
+  apply andb_prop in H. destruct H as [H1 H2]. apply negb_true_iff in H1. apply Nat.eqb_eq in H2. destruct Fl; congruence.
+Qed.
+
+Lemma cleaned_only_if_removed_l s0 evs p q : clinit_ok s0 = true ->
+  aget p (cs_peers (clrun s0 evs)) = Some q -> cp_leave q = false -> cp_removed q = true \/ cp_cleans q <> 0%nat ->
+  exists k, memN p (peers_of (cs_init s0) (firstn k (cs_lg (clrun s0 evs)))) = false.
+Proof.
+  intros I A Lv Fl. destruct (clrun_clean_inv evs s0 (clinit_clean_inv s0 I) p q A Lv Fl) as [k H]. exists k.
+  now rewrite clrun_init in H.
+Qed.
+
+(* an explicit Shutdown of a peer that has not been removed and does not leave: the data stays, nothing is rotated *)
+Lemma shutdown_keeps_data_l s p q os snap : aget p (cs_peers s) = Some q -> cp_running q = true ->
+  cp_removed q = false -> cp_leave q = false ->
+  let s' := fst (clstep s (EvShutdown p os snap)) in
+  exists q', aget p (cs_peers s') = Some q' /\ cp_running q' = false /\ cp_removed q' = false /\
+    cp_dir q' = snap_dir snap (cp_dir q) /\ olds (cp_dir q') = olds (cp_dir q) /\
+    (live (cp_dir q) <> None -> live (cp_dir q') <> None) /\ cp_cleans q' = cp_cleans q /\
+    cs_lg s' = cs_lg s /\ cs_tr s' = cs_tr s /\ cs_st s' = cs_st s.
+Proof.
+  intros A R Rm Lv. unfold clstep. simpl. rewrite A, R. simpl. unfold do_shutdown. rewrite Lv, Rm. simpl.
+  eexists. split; [apply aget_aput_same|]. simpl. rewrite mem_trace_same, app_nil_r. repeat split; auto.
+  - unfold snap_dir. destruct snap; auto. destruct (live (cp_dir q)) as [[m sn]|]; auto.
+  - unfold snap_dir. destruct snap; auto. destruct (live (cp_dir q)) as [[m sn]|]; simpl; auto. discriminate.
+Qed.
+
+(* as written, a peer configured to leave on shutdown cleans its data even when leaving failed: the sole peer of a cluster *)
+Definition leave_peer : cpeer := mk_cpeer true true false 0 (mk_dir (Some (1, Some 7)) (fun _ => None)) 0 (mk_pcfg (mk_cfg 1 1 false false) false) true 1.
+Definition leave_s0 : cstate := mk_cstate [0] [] [] [] 0 [(0, leave_peer)].
+Lemma leave_failed_still_cleans :
+  clinit_ok leave_s0 = true /\
+  let s := clrun leave_s0 [EvShutdown 0 [Done; Done] None] in
+  exists q, aget 0 (cs_peers s) = Some q /\ cp_cleans q = 1%nat /\ live (cp_dir q) = None /\ olds (cp_dir q) 0%nat = Some (1, Some 7) /\
+            cs_lg s = [] /\ cfg_peers s = [0].
+Proof. split; [reflexivity|]. cbv zeta. eexists. split; [reflexivity|]. repeat split. Qed.
+
+Lemma cleaned_only_if_removed_refuted_l :
+  exists s0 evs p q, clinit_ok s0 = true /\ aget p (cs_peers (clrun s0 evs)) = Some q /\ cp_cleans q <> 0%nat /\
+    forall k, memN p (peers_of (cs_init s0) (firstn k (cs_lg (clrun s0 evs)))) = true.
+Proof.
+  exists leave_s0, [EvShutdown 0 [Done; Done] None], 0. eexists. split; [reflexivity|]. split; [reflexivity|]. split; [discriminate|].
+  intros k. replace (cs_lg (clrun leave_s0 [EvShutdown 0 [Done; Done] None])) with (@nil mentry) by reflexivity.
+  now rewrite firstn_nil.
+Qed.
